@@ -13,6 +13,8 @@ predicates of Model/IsoDep.v (and to the repaired ATS parse of Model/TagAct.v).
                                 exchange is matched statement by statement while the expressions are cut
                                 out; any change of shape raises (fail closed).
   nfc.tag                       TIMEOUT_ERROR, RECEIVE_ERROR, PROTOCOL_ERROR
+  (since b65ae89) the shared budget: self.max_extra_blocks, n_extra = 0, the three `n_extra += 1` and the three
+                                `n_extra > self.max_extra_blocks` tests (two WTX loops, the chaining while)
 
 Float arithmetic (FWT = 4096 / 13.56E6 * 2**FWI, int(1/fwt)) is translated to exact rationals (Coq Q,
 Qfloor); that Python's double rounding does not change int(1/fwt) for FWI 0..14 is checked by the
@@ -406,7 +408,7 @@ def is_exchange(s, timeout):
 
 
 ENV = {'self.pni': 'pni', 'self.miu': 'miu', 'self.n_retry_nak': 'n_retry_nak', 'self.n_retry_ack': 'n_retry_ack',
-       'command': 'command', 'offset': 'offset', 'more': 'more', 'pfb': 'pfb', 'data': 'data', 'i': 'i', 'response': 'response'}
+       'command': 'command', 'n_extra': 'n_extra', 'self.max_extra_blocks': 'max_extra_blocks', 'offset': 'offset', 'more': 'more', 'pfb': 'pfb', 'data': 'data', 'i': 'i', 'response': 'response'}
 
 
 def exchange_kernels(fn, consts):
@@ -414,6 +416,14 @@ def exchange_kernels(fn, consts):
 
     def k(name, e, args, ty=None):
         out.append(kernel(name, e, args, ENV, ty))
+
+    def extra(inc, test, where, is_raise):
+        """n_extra += 1 ; if n_extra > self.max_extra_blocks: raise"""
+        want(isinstance(inc, ast.AugAssign) and ast.unparse(inc.target) == 'n_extra' and isinstance(inc.op, ast.Add), where + ' n_extra += ..')
+        out.append(kernel('gen_%s_extra_incr' % where, ast.BinOp(left=inc.target, op=ast.Add(), right=inc.value), [('n_extra', Z)], ENV, Z))
+        tb = strip_logs(test.body) if isinstance(test, ast.If) else []
+        want(isinstance(test, ast.If) and not test.orelse and len(tb) == 1 and is_raise(tb[0]), where + ' budget test')
+        k('gen_%s_extra_over' % where, test.test, [('n_extra', Z), ('max_extra_blocks', Z)], B)
 
     def try_loop(stmt, where, retry_attr, retry_block_name, retransmit):
         """for i in itertools.count(start=1): try: <exchange, WTX loop, [retransmit], break> except ..."""
@@ -432,14 +442,15 @@ def exchange_kernels(fn, consts):
         want(isinstance(w, ast.While) and not w.orelse, where + ' WTX loop')
         k('gen_%s_is_wtx' % where, w.test, [('data', L)], B)
         wb = strip_logs(w.body)
-        want(len(wb) == 4, where + ' WTX body')
+        want(len(wb) == 6, where + ' WTX body')
         want(isinstance(wb[0], ast.If) and not wb[0].orelse and len(wb[0].body) == 1 and raises_clf(wb[0].body[0], 'ProtocolError'),
              where + ' WTXM test')
         k('gen_%s_wtx_short' % where, wb[0].test, [('data', L)], B)
-        want(isinstance(wb[1], ast.Assign) and ast.unparse(wb[1].targets[0]) == 'wtx_timeout', where + ' wtx_timeout')
-        want(is_exchange(wb[2], 'wtx_timeout'), where + ' WTX exchange (the S(WTX) block is echoed)')
-        want(isinstance(wb[3], ast.If) and not wb[3].orelse and len(wb[3].body) == 1 and
-             raises_clf(wb[3].body[0], 'TransmissionError') and ast.unparse(wb[3].test) == ast.unparse(b[1].test),
+        extra(wb[1], wb[2], where, lambda s_: raises_clf(s_, 'ProtocolError'))
+        want(isinstance(wb[3], ast.Assign) and ast.unparse(wb[3].targets[0]) == 'wtx_timeout', where + ' wtx_timeout')
+        want(is_exchange(wb[4], 'wtx_timeout'), where + ' WTX exchange (the S(WTX) block is echoed)')
+        want(isinstance(wb[5], ast.If) and not wb[5].orelse and len(wb[5].body) == 1 and
+             raises_clf(wb[5].body[0], 'TransmissionError') and ast.unparse(wb[5].test) == ast.unparse(b[1].test),
              where + ' empty answer in WTX loop')
         if retransmit:
             r = b[3]
@@ -472,7 +483,7 @@ def exchange_kernels(fn, consts):
 
     body = [s for s in fn.body if not (isinstance(s, ast.Expr) and isinstance(s.value, ast.Constant))]
     want([a.arg for a in fn.args.args] == ['self', 'command', 'timeout'], 'signature')
-    want(len(body) == 5, 'top level statements')
+    want(len(body) == 6, 'top level statements')
     want(isinstance(body[0], ast.If) and ast.unparse(body[0].test) == 'timeout is None' and not body[0].orelse, 'default timeout')
     # presence check
     pc = body[1]
@@ -483,7 +494,9 @@ def exchange_kernels(fn, consts):
          'presence check body')
     k('gen_presence_nak', pb[0].value, [('pni', Z)], L)
     # command blocks
-    fo = body[2]
+    want(isinstance(body[2], ast.Assign) and ast.unparse(body[2].targets[0]) == 'n_extra', 'n_extra = 0')
+    k('gen_extra_init', body[2].value, [], Z)
+    fo = body[3]
     want(isinstance(fo, ast.For) and ast.unparse(fo.target) == 'offset' and
          ast.unparse(fo.iter) == 'range(0, len(command), self.miu)' and not fo.orelse, 'for offset')
     fb = strip_logs(fo.body)
@@ -513,22 +526,24 @@ def exchange_kernels(fn, consts):
     want(isinstance(yb[1], ast.Assign) and ast.unparse(yb[1].targets[0]) == 'response', 'response')
     k('gen_response_first', yb[1].value, [('data', L)], L)
     # response chaining
-    wh = body[3]
+    wh = body[4]
     want(isinstance(wh, ast.While) and not wh.orelse, 'while chaining')
     k('gen_chaining', wh.test, [('data', L)], B)
     wb = strip_logs(wh.body)
-    want(len(wb) == 5, 'while chaining body')
-    want(isinstance(wb[0], ast.Assign) and ast.unparse(wb[0].targets[0]) == 'data', 'R(ACK)')
-    k('gen_rack', wb[0].value, [('pni', Z)], L)
-    try_loop(wb[1], 'recv', 'n_retry_ack', 'rack', False)
-    bn = wb[2]
+    want(len(wb) == 7, 'while chaining body')
+    extra(wb[0], wb[1], 'chain', lambda s_: raises(s_, 'PROTOCOL_ERROR'))
+    want(isinstance(wb[2], ast.Assign) and ast.unparse(wb[2].targets[0]) == 'data', 'R(ACK)')
+    k('gen_rack', wb[2].value, [('pni', Z)], L)
+    try_loop(wb[3], 'recv', 'n_retry_ack', 'rack', False)
+    bn = wb[4]
     want(isinstance(bn, ast.If) and not bn.orelse and len(strip_logs(bn.body)) == 1 and raises(strip_logs(bn.body)[0], 'PROTOCOL_ERROR'),
          'block number check (chaining)')
     k('gen_recv_bad_bn', bn.test, [('data', L), ('pni', Z)], B)
-    want(isinstance(wb[3], ast.Assign) and ast.unparse(wb[3].targets[0]) == 'response', 'response accumulation')
-    k('gen_response_more', wb[3].value, [('response', L), ('data', L)], L)
-    toggle(wb[4], 'gen_toggle_recv', 'toggle after response block')
-    want(isinstance(body[4], ast.Return) and ast.unparse(body[4].value) == 'response', 'return response')
+    want(isinstance(wb[5], ast.Assign) and ast.unparse(wb[5].targets[0]) == 'response', 'response accumulation')
+    k('gen_response_more', wb[5].value, [('response', L), ('data', L)], L)
+    toggle(wb[6], 'gen_toggle_recv', 'toggle after response block')
+    want(isinstance(body[5], ast.Return) and ast.unparse(body[5].value) == 'response', 'return response')
+    out.append(define('gen_chain_errno_over', [], zlit(consts['PROTOCOL_ERROR']), Z))
     return out
 
 
@@ -574,6 +589,7 @@ def generate(repo):
     out.append(kernel('gen_n_retry_ack', single_assign(ini, 'self.n_retry_ack'), [('fwt', Q)], {'self.fwt': 'fwt'}, Z))
     out.append(kernel('gen_n_retry_nak', single_assign(ini, 'self.n_retry_nak'), [('n_retry_ack', Z)],
                       {'self.n_retry_ack': 'n_retry_ack'}, Z))
+    out.append(kernel('gen_max_extra_blocks', single_assign(ini, 'self.max_extra_blocks'), [], {}, Z))
     # the constructors
     skip = ['self._extended_length_support']
     out.append(init_kernel('gen_t4a_init', find(tt4, 'Type4ATag.__init__'), 'self.clf.exchange(rats_cmd', 'v_rats_res',
